@@ -921,6 +921,13 @@ def run(rep, tier, seed):
     _CTX['drv'] = drv
     quick = tier == 'quick'
     _CTX['model_large'] = 12 if quick else 300
+    # read, peek and the markedPosition setter of CachingStreamWrapper are translated from the source on every run
+    # (gen/py2lean.py -> GenK.wrapRead / wrapPeek / wrapSetMark) and proved to be the steps of the wrapper model
+    # (Props/C11 source_wrapper_*); the translations - and PyLite's transcription of io.BytesIO - are run against the real
+    # objects here
+    from harness import kernels
+    kernels.obligations(rep, ['wrapRead', 'wrapPeek', 'wrapSetMark'])
+    kernels.check(rep, drv, seed, 200 if quick else 8000, which=('streamWrapper',))
     rep.rule = ('(A) random op histories (<=60 ops from read n / read(-1) / peek n / seek to >= mark / seek back / seek to mark / '
                 'set mark / tell / get mark, sizes straddling multiples of %d) on CachingStreamWrapper vs io.BytesIO vs the model; '
                 '(B) the same over a growing raw stream vs a growing seekable stream; (C) one-shot decodes of the same octets as bytes, '
